@@ -95,6 +95,11 @@ pub fn real_run2(bits0: usize, bits1: usize, ops: &[Op]) -> String {
         }
         let b0 = crate::sbdd::bdd_str(&s[0].bdd.borrow());
         let b1 = crate::sbdd::bdd_str(&s[1].bdd.borrow());
+        // both sets' diagrams are the environment's own shared nodes (C13)
+        let handles = vec![s[0].bdd.borrow().clone(), s[1].bdd.borrow().clone()];
+        if let Some(e) = crate::shist::check_env_gen(&env, &handles, &|v: &usize| *v) {
+            return format!("(env-invariant {e})");
+        }
         format!("(ok ({}) {} {})", answers.join(" "), b0, b1)
     }));
     r.unwrap_or_else(|_| "(panic)".into())
